@@ -97,7 +97,11 @@ FpExprs ==
         B2("Prod", Xn(1), Dn(1)), B2("Prod", Dn(1), Xn(1)), B2("Sum", Dn(2), Xn(1)), B2("Diff", Xn(2), Dn(1)),
         B2("Prod", SplLeaf, Dn(1)), B2("Sum", S1("ScalL", "T", R(-1, 2), Dn(2)), SplLeaf),
         B2("Diff", B2("Prod", Dn(1), Xn(1)), B2("Prod", Xn(1), Dn(1))),
-        B2("Prod", Xn(2), B2("Sum", Dn(2), Xn(1)))}
+        B2("Prod", Xn(2), B2("Sum", Dn(2), Xn(1))),
+        \* scalars of a built-in floating type that differs from the spline's data type (3.0f, 3.0)
+        S1("Div", "flt", FromInt(3), B2("Sum", B2("Prod", Xn(1), Dn(1)), Xn(2))), S1("Div", "dbl", FromInt(3), Dn(1)),
+        S1("ScalL", "flt", FromInt(3), Xn(1)), S1("ScalR", "dbl", R(1, 2), Dn(1)), S1("SubSR", "flt", R(1, 2), Xn(1)),
+        S1("AddSL", "dbl", FromInt(3), Dn(1))}
 FpBFOps == {Id, Dn(1), Xn(1), B2("Sum", S1("ScalL", "T", R(-1, 2), Dn(2)), SplLeaf)}
 
 RECURSIVE HasSpl(_)
@@ -118,9 +122,9 @@ Factor(g) == FpSpl(Sup(g, 1, Len(g)), 1, 2)
 KnotSets == {Q(<<0, 2, 4, 6>>), Q(<<-7, -4, 0, 1>>), <<R(0, 1), R(1, 2), R(1, 1), R(3, 1)>>}
 RECURSIVE ND(_, _, _)
 ND(L, lo, n) == IF L = 0 THEN {<<>>} ELSE UNION {{<<v>> \o s : s \in ND(L - 1, v, n)} : v \in lo..n}
-FpKnots == {k \in UNION {UNION {{[i \in 1..L |-> V[s[i]]] : s \in ND(L, 1, Len(V))} : L \in 3..(IF Thorough THEN 8 ELSE 6)} : V \in KnotSets} :
+FpKnots == {k \in UNION {UNION {{[i \in 1..L |-> V[s[i]]] : s \in ND(L, 1, Len(V))} : L \in 3..(IF Thorough THEN 7 ELSE 6)} : V \in KnotSets} :
               KnotsValid(k)}
-MaxP == IF Thorough THEN 5 ELSE 3
+MaxP == IF Thorough THEN 4 ELSE 3
 
 Weights == {<<ROne>>, <<R(1, 2), FromInt(-1)>>, <<RZero, ROne, R(1, 4)>>, <<ROne, RZero, RZero, R(-1, 8)>>}
 
